@@ -554,34 +554,32 @@ pub(crate) fn parse_const(c: &ItemConst) -> Result<RustItem, ParseError> {
 }
 
 fn parse_const_expr(e: &Expr) -> Result<RustConstExpr, ParseError> {
-    struct ExprLitVisitor(pub Option<Result<RustConstExpr, ParseError>>);
-    impl Visit<'_> for ExprLitVisitor {
-        fn visit_expr_lit(&mut self, el: &ExprLit) {
-            if self.0.is_some() {
-                // should we throw an error instead of silently ignoring a second literal?
-                // or would this create false positives?
-                return;
-            }
-            let check_literal_type = || {
-                Ok(match &el.lit {
-                    Lit::Int(lit_int) => {
-                        let int: i128 = lit_int
-                            .base10_parse()
-                            .map_err(|_| ParseError::RustConstTypeInvalid)?;
-                        RustConstExpr::Int(int)
-                    }
-                    _ => return Err(ParseError::RustConstTypeInvalid),
-                })
-            };
-
-            self.0.replace(check_literal_type());
-        }
+    // Only an integer literal is a value we can carry over, optionally negated or
+    // parenthesised. Anything else (`1 + 2`, `OTHER`, `f()`, `-1 as u32`, ...) would need to be
+    // evaluated; picking a literal out of it generates a wrong value.
+    match e {
+        Expr::Lit(ExprLit {
+            lit: Lit::Int(lit_int),
+            ..
+        }) => lit_int
+            .base10_parse::<i128>()
+            .map(RustConstExpr::Int)
+            .map_err(|_| ParseError::RustConstTypeInvalid),
+        Expr::Lit(_) => Err(ParseError::RustConstTypeInvalid),
+        Expr::Paren(paren) => parse_const_expr(&paren.expr),
+        Expr::Group(group) => parse_const_expr(&group.expr),
+        Expr::Unary(syn::ExprUnary {
+            op: syn::UnOp::Neg(_),
+            expr,
+            ..
+        }) => match parse_const_expr(expr)? {
+            RustConstExpr::Int(int) => int
+                .checked_neg()
+                .map(RustConstExpr::Int)
+                .ok_or(ParseError::RustConstTypeInvalid),
+        },
+        _ => Err(ParseError::RustConstExprInvalid),
     }
-    let mut expr_visitor = ExprLitVisitor(None);
-    syn::visit::visit_expr(&mut expr_visitor, e);
-    expr_visitor
-        .0
-        .unwrap_or(Err(ParseError::RustConstTypeInvalid))
 }
 
 // Helpers
